@@ -3,6 +3,9 @@ EXTENDS FragmentsPkg, TLCExt
 NoDeviations == {}
 PreFix == {"exclude_all_unpacked", "no_dep_closure"}
 SetIter == {"set_iteration"}
+OldClosure == {"old_closure"}
+Sample400 == 400
+Sample2500 == 2500
 \* printed once per terminal state: the case and the predicted outcome (tuples / records of simple values)
 SampleOneIn == 1
 Sample60 == 60
